@@ -34,7 +34,7 @@ func init() {
 		PropCheck: "prop_bad_ids",
 		Gen:       c13Gen,
 		Run:       c13Run,
-		Rule:      "operation sequences (Write/SumHash/Reset/ComputeHash) on one hasher object: every single-write length 0..4*rate for the three sponge hashers (quick: stride + block boundaries), two-way splits around block boundaries, random interleavings incl. write-after-sum and double sum, KMAC128 key/customizer/output length sweeps with the bytepad-aligned key lengths 162..164 and 330..332, KMAC128 ComputeHash as well as SumHash at every output size, key length and output size of 8192 bytes (third byte of left_encode / right_encode), constructor rejections, SHA2 with write-after-sum, one-shot helpers (misaligned and nil input, dirty result buffer); for every hasher type: each of SumHash / Reset / ComputeHash / empty Write / nil Write as the FIRST operation on a new object, nil slices, random KMAC interleavings with empty writes, a second object of the same type (same key and customizer slices) and the one-shot helpers driven with unrelated data between the operations; the runner itself reports: Write not returning (len(p), nil), Size() / Algorithm() not matching the type and the digests, a message / key / customizer buffer modified by the library, a digest returned earlier that changes later, and it overwrites every caller buffer (message, key, customizer) as soon as the call it was passed to has returned; non-trivial if a digest was produced or a constructor rejected; distinct by (algorithm, key, customizer, output size, op list)",
+		Rule:      "operation sequences (Write/SumHash/Reset/ComputeHash) on one hasher object: every single-write length 0..4*rate for the three sponge hashers (quick: stride + block boundaries), two-way splits around block boundaries, random interleavings incl. write-after-sum and double sum, KMAC128 key/customizer/output length sweeps with the bytepad-aligned key lengths 162..164 and 330..332, KMAC128 ComputeHash as well as SumHash at every output size, key length and output size of 8192 bytes (third byte of left_encode / right_encode), constructor rejections, SHA2 with write-after-sum, one-shot helpers (misaligned and nil input, dirty result buffer); for every hasher type: each of SumHash / Reset / ComputeHash / empty Write / nil Write as the FIRST operation on a new object, nil slices, random KMAC interleavings with empty writes, a second object of the same type (same key and customizer slices) and the one-shot helpers driven with unrelated data between the operations; the runner itself reports: Write not returning (len(p), nil), Size() / Algorithm() not matching the type and the digests, a message / key / customizer buffer modified by the library, a digest returned earlier that changes later, and it overwrites every caller buffer (message, key, customizer) as soon as the call it was passed to has returned; non-trivial if a digest was produced or a constructor rejected; distinct by (algorithm, key, customizer, output size, op list); negative output sizes whose multiple of 8 wraps (MinInt64, -2^62, -2^61)",
 		Shard:     40,
 	})
 }
